@@ -61,7 +61,7 @@ def hygiene():
             cc()
         ast_nodes.MAX_EMPTY = 100
         from xlcalculator.xlfunctions import xl
-        for name in ('SPY', 'FLAKY', 'BOOM', 'WHO') + tuple(
+        for name in ('SPY', 'FLAKY', 'BOOM', 'WHO', 'PAUSE') + tuple(
                 k for k in list(xl.FUNCTIONS) if k.startswith('FAIL_')):
             xl.FUNCTIONS.pop(name, None)
     except Exception:
